@@ -391,9 +391,9 @@ def nontrivial(line, model_answer):
     return not model_answer.startswith("OK ")
 
 
-def fp_sweep(vlib, tier, notes):
+def fp_sweep(vlib, impl, tier, notes):
     """the real to_chars/from_chars pair on float bit patterns, checked inside an optimised driver"""
-    fast = vlib.build_cpp("drv_num_fast", ["drv_num.cpp"], extra=["-O2"], sanitize=False)
+    fast = impl.fast
     lines = []
     if tier == "quick":
         for k in range(64):            # 64 slices of 2^18 consecutive patterns spread over the 2^32 range + all exponent boundaries
@@ -427,19 +427,19 @@ def fp_sweep(vlib, tier, notes):
 
 
 def run(ctx, vlib):
-    impl, model = N.drivers(vlib)
+    impl, model = N.drivers(vlib, need=("text", "fast"))
     rng = ctx["rng"]
     corpus = N.load_corpus("C16")
     gen, classes, groups = gen_cases(rng, ctx["tier"])
     groups = [(a + len(corpus), n) for a, n in groups]
     cases = corpus + gen
-    oi = vlib.run_driver(impl, cases)
+    oi = N.run_impl(vlib, impl, cases)
     om = vlib.run_driver(model, cases)
     sws = sweeps(ctx["tier"])
     evals, explicit = N.run_sweeps(vlib, impl, model, sws, expand)
     if explicit:
         cases += explicit
-        oi += vlib.run_driver(impl, explicit, jobs=1)
+        oi += N.run_impl(vlib, impl, explicit, jobs=1)
         om += vlib.run_driver(model, explicit, jobs=1)
     res = N.assess("C16", vlib, impl, model, cases, oi, om, evals, sws, classes,
                    rule="integers: ALL values of char/int8/uint8/int16/uint16/bool x 4 string widths printed and parsed back into 5 types (hashed sweeps), boundary (+-10^k, +-2^k, limits) and random 32/64-bit values with prior string content; strings from a literal grammar (blanks incl. non-blank whitespace, signs incl. '+', overlong digit runs, leading zeros, fractions, exponents, trailing text, non-ASCII digits, embedded NUL) each in the 4 widths, ill-formed units; bool literals in all letter cases; the modelled std::from_chars/to_chars against the real ones (exhaustive 8/16-bit, limits, capacities).  floats: boundary/random bit patterns and literal strings against an exact-rational oracle; in-driver sweep of float bit patterns (ALL 2^32 in thorough).  non-trivial = distinct parse case or failing print",
@@ -452,7 +452,7 @@ def run(ctx, vlib):
                                        model=" / ".join(om[a:a + n]), judge="FAIL",
                                        why="the same text gives different results in the four string widths: " + " ; ".join(cases[a:a + n])))
     notes = ["float half: correspondence against an exact-rational oracle only (no Coq model of libstdc++'s floating to_chars/from_chars)"]
-    total, ffail = fp_sweep(vlib, ctx["tier"], notes)
+    total, ffail = fp_sweep(vlib, impl, ctx["tier"], notes)
     res["evaluations"] += total
     res["classes"]["sweepfp (in-driver float text check)"] = total
     res["failing"] += ffail[:10]
